@@ -203,6 +203,11 @@ def r8(ctx, rep):
                     whole = a.get("k") == "path" and a["p"] in bound
                     rep.check(whole, "dedupe-key:compound", f"`{show(n, maxdepth=6)}`: the key under which a `table.column` item counts as already selected must be the whole identifier ({bound}); "
                               "a key made of its parts drops `y.b` after `x.a, x.b, y.a`", file=f["file"], line=n["l"], fn=f["path"])
+    # the de-duplication itself: two selected columns with the same identifier are merged into one
+    users = [g["path"] for g in syn.fns if g["crate"] == "prqlc" and "body" in g and g["path"] != f["path"]
+             and any(c.get("k") == "call" and last_seg(show(c["f"])) == "deduplicate_select_items" for c in walk(g["body"]))]
+    rep.check(not users, "dedupe-merges-same-name", f"{users} pass the projection through deduplicate_select_items, which drops every item whose identifier was already selected: "
+              "`select {a, a}` returns ONE column", file=f["file"], line=f["l"], fn=f["path"])
     rep.check(n_ins >= 1, "dedupe-key:site", f"expected the `seen.insert(..)` of the CompoundIdentifier arm in deduplicate_select_items, found {n_ins}", file=f["file"], line=f["l"], fn=f["path"])
 
 
@@ -229,6 +234,14 @@ def r9(ctx, rep):
                   "(`from s\"SELECT z, c, m FROM t\"` gave c, m, z)", file=f["file"], line=f["l"], fn=f["path"])
 
 
+def r10(ctx, rep):
+    # rules owned by other properties whose violation removes or adds result columns
+    import C01
+    import C16
+    rep.borrowed(C01.r7, ctx, "C05.R10", "a join rewritten into a set operation keeps only the top's columns", only=r"bottom-unused")
+    rep.borrowed(C16.r8, ctx, "C05.R11", "an exclusion `select !{t.x}` applies to the input of that alias only", only=r"^qualifier:")
+
+
 def run(ctx, rep):
-    for r in (r1, r2, r3, r4, r5, r6, r7, r8, r9):
+    for r in (r1, r2, r3, r4, r5, r6, r7, r8, r9, r10):
         rep.guard(r, ctx)
